@@ -585,7 +585,8 @@ class printcore():
                                   "\n" + traceback.format_exc())
             while self.printing and self.printer and self.online:
                 self._sendnext()
-            self.sentlines = {}
+            if not self.paused:
+                self.sentlines = {}
             self.log.clear()
             self.sent = []
             for handler in self.event_handler:
